@@ -29,6 +29,28 @@ type spec struct {
 }
 
 var specs = map[string]spec{
+	"C06": {
+		jobs: []job{
+			{name: "programs", test: "TestC06Programs", rapid: true, checks: [2]int{40, 1200}, shards: [2]int{8, 12}, secs: [2]int{900, 7200}},
+			{name: "rigrandom", test: "TestC06RigRandom", rapid: true, checks: [2]int{2500, 100000}, shards: [2]int{4, 8}, secs: [2]int{900, 7200}},
+			{name: "rigexhaustive", test: "TestC06RigExhaustive", shards: [2]int{16, 16}, count: [2]int{3, 4}, secs: [2]int{900, 14400}},
+		},
+		rule:        "programs = MEM/WALK/SHADOW/SHADOWSLOW/CACHE/PAIR programs (results may be wrong for known reasons: no result-level exclusion) on MVP-7.0/7.1/8 x 1..4 cores with the invariant monitor called on every loop iteration of Run through the tick hook; the monitor reads a snapshot of every L1, the directory, the per-line lock counters, the outstanding snoop commands and (MVP-8) the L3, and checks I1 at most one Modified owner and then no Shared copy, I2 a Shared L1 line equals the next level byte for byte (covering L3 line if resident, else memory), I3 resident in L1 <=> state != Invalid when no transfer is in progress on the line (lock counters zero, no outstanding command, L3 line not locked), I4 no duplicate, aligned, full-size lines, I5 lock counters >= 0 (a recovered 'is negative' panic counts). rigrandom / rigexhaustive = the same monitor on the pipeline-less controller rig stepped exactly as CPU.Run does (snoop, then each core's read/write coroutine with the same request until done): random schedules of 1-8 requests on 2-4 cores and 3 lines with up to 2 flushes; exhaustive = every schedule of up to k requests (3 quick, 4 thorough) of (core, read|write, line 0..1, issue delay 0..2) from 2 and 3 cores, each also with one flush of one core or of all cores at each of 15 critical cycles (around the line push at cycle 309..316), on the three variants; quiescence is required. Non-trivial = a line that was Modified on one core is later held (Modified or Shared) by another core; distinct by (program, state) or by schedule.",
+		assumptions: []string{"the snapshot hook copies references and changes nothing", "'transfer in progress' = the line's lock counters are non-zero, or a snoop command for that (core, line) is outstanding, or (MVP-8) the covering L3 line is locked or has a command outstanding", "the rig steps the controllers in the order CPU.Run uses"},
+	},
+	"C08": {
+		jobs:        []job{{name: "determinism", test: "TestC08", rapid: true, checks: [2]int{60, 2000}, shards: [2]int{16, 16}, secs: [2]int{900, 7200}, cores: 1}},
+		rule:        "Programs of the profiles PRESSURELOAD, MEM, SHADOWSLOW, MEMSAFE, REG (results may be wrong for known reasons: determinism is independent of correctness); each case is judged on 6 of the 33 configurations with one drawn relation against the first run R0 of a fresh machine and a freshly parsed program: repeat x5 in-process; run after 1-3 unrelated machines; 6 machines concurrently in goroutines plus two noise machines of other variants; re-use of one parsed Application for a second and third run on the same configuration and after a run on another configuration; a child process (the test binary re-executed on the case). Compared: outcome class and, for runs that return, cycle count, 32 registers and all memory. Non-trivial = the run has a memory access or a register dependence at distance <= 4; distinct by (text, registers, memory image, relation, configurations).",
+		assumptions: []string{"the text of a Go panic is not part of the claim (a run that does not return has no registers, memory or cycle count)", "a budget overrun is an outcome class like any other: 'hangs once, finishes once' is a violation, 'always hangs' is C07's"},
+	},
+	"C12": {
+		jobs: []job{
+			{name: "model", test: "TestC12Model", rapid: true, checks: [2]int{60, 2500}, shards: [2]int{12, 12}, secs: [2]int{900, 7200}},
+			{name: "valueindep", test: "TestC12ValueIndependence", rapid: true, checks: [2]int{40, 1500}, shards: [2]int{4, 4}, secs: [2]int{900, 7200}},
+		},
+		rule:        "model = programs of the profiles REG/MEM/WALK/MEMSAFE: MVP-1's count must equal the sum over the executed instructions (reference trace) of fetch (MemoryAccess) + decode 1 + memory read for a load (MemoryAccess) + InstructionType.Cycles() + write-back (RegisterAccess for a register result, MemoryAccess for a store; ret counts up to execute), the constants being read from common/latency and from the code so that the formula is the oracle; MVP-2 <= MVP-1 on the same run; on every configuration cycles > 0 and cycles >= ceil(executed / max(2, parallelism)) — the relations that use the executed-instruction count are judged only on runs whose result equals the reference. valueindep = programs whose registers are split into control/address registers and data registers (data never feeds a branch, an address or a divisor; loads write data registers only), two initial states that differ only in data registers, the reference confirming identical pc and address traces: the cycle counts must be equal on every configuration. Non-trivial = (model) the trace has a load, a store and a taken transfer, (valueindep) the two runs end with different registers; distinct by (text, registers, memory image).",
+		assumptions: []string{"the latency constants themselves are pinned by the repository's TestBenchmarks, not by this check", "issue width bound max(2, parallelism) is deliberately loose"},
+	},
 	"C13": {
 		jobs: []job{
 			{name: "linecache", test: "TestC13LineCache", rapid: true, checks: [2]int{4000, 150000}, shards: [2]int{8, 16}, secs: [2]int{600, 7200}},
